@@ -10,6 +10,8 @@ import subprocess
 import sys
 import time
 
+if hasattr(sys, "set_int_max_str_digits"):
+    sys.set_int_max_str_digits(0)      # exact rationals of the model run to thousands of digits
 VERIF = os.path.dirname(os.path.dirname(os.path.abspath(__file__)))
 REPO = os.environ.get("VERIF_REPO", "/repo")
 CACHE = os.path.join(VERIF, ".cache")
@@ -492,9 +494,14 @@ def load_known():
     return {"known": [], "fixed": []}
 
 
+PENDING = []      # (signature, what, replay) raised by shared infrastructure (e.g. missing model output), merged in finish()
+
+
 def finish(res, level_text_extra=None):
     """Write evidence, print KNOWN-FINDING / VIOLATION lines, return exit code."""
     pid = res.pid
+    for sig, what, rp in PENDING:
+        res.violation(sig, what, rp, no_input=True)
     known = [k for k in load_known().get("known", []) if pid in (k.get("properties") or [k.get("property")])]
     gate = res.gate or {"theorems": [], "discharged": [], "problems": ["gate not run"], "assumptions": {}, "checker_cmd": ""}
     # a broken proof obligation is a violation without a failing input (unless the search found one)
